@@ -7,26 +7,24 @@ Import ListNotations.
 Open Scope R_scope.
 
 (* QUEST: lambda = sum(weights) = 1 is a root of the code's characteristic quartic on consistent data: the numerator phi(1)
-   of the first Newton step is 0 (explicit premise det S <> 0: the code computes adj S as det S * inv S) *)
+   of the first Newton step is 0 — for every unit q (no det S premise since the code takes tr(adj S) from the principal minors) *)
 Theorem C04_quest_root : forall w x y z sa sm cd sd,
   w*w + x*x + y*y + z*z = 1 -> cd*cd + sd*sd = 1 -> 0 < cd -> 0 < sa -> 0 < sm ->
-  det3 (quest_S w x y z cd sd) <> 0 ->
   exists phi phi', C04_quest_newton1_R w x y z sa sm cd sd = Val [phi; phi'] /\ phi = 0.
 Proof.
-  intros w x y z sa sm cd sd Hq Hd Hc Ha Hm HD. exact (quest_root w x y z sa sm cd sd Hq (conj Hd Hc) Ha Hm HD).
+  intros w x y z sa sm cd sd Hq Hd Hc Ha Hm. exact (quest_root w x y z sa sm cd sd Hq (conj Hd Hc) Ha Hm).
 Qed.
 Print Assumptions C04_quest_root.
 
 (* QUEST: the code's closed-form quaternion [gamma, Chi]/norm, evaluated at the root lambda = 1 of its quartic, is +-q on
    consistent data (any positive scalings, dip in (-90,90) deg) whenever w <> 0 (gamma = 2 w^2 cd^2 vanishes at half-turns)
-   and det S <> 0 (explicit premise: the code divides by det S) *)
+   (no det S premise is needed any more: the code no longer divides by det S) *)
 Theorem C04_quest_closed_form : forall w x y z sa sm cd sd,
   w*w + x*x + y*y + z*z = 1 -> cd*cd + sd*sd = 1 -> 0 < cd -> 0 < sa -> 0 < sm -> w <> 0 ->
-  det3 (quest_S w x y z cd sd) <> 0 ->
   exists l, C04_quest_at_root_R w x y z sa sm cd sd = Val l /\ (l = [w;x;y;z] \/ l = [-w;-x;-y;-z]).
 Proof.
-  intros w x y z sa sm cd sd Hq Hd Hc Ha Hm Hw HD.
-  exact (quest_closed_form w x y z sa sm cd sd Hq (conj Hd Hc) Ha Hm Hw HD).
+  intros w x y z sa sm cd sd Hq Hd Hc Ha Hm Hw.
+  exact (quest_closed_form w x y z sa sm cd sd Hq (conj Hd Hc) Ha Hm Hw).
 Qed.
 Print Assumptions C04_quest_closed_form.
 
